@@ -95,6 +95,15 @@ def _converted_roles(repo) -> Set[str]:
                     d = dotted_name(e)
                     if d and d.startswith('model.'):
                         roles.add(d.split('.')[1])
+            # parts appended to the list before the loop (`parts.append(model.sdacgteconomics)`) are converted as well
+            if isinstance(lp, ast.For) and isinstance(lp.iter, ast.Name):
+                for c_ in ast.walk(f.node):
+                    if isinstance(c_, ast.Call) and isinstance(c_.func, ast.Attribute) and c_.func.attr in ('append', 'extend') and \
+                            isinstance(c_.func.value, ast.Name) and c_.func.value.id == lp.iter.id:
+                        for a_ in ast.walk(c_):
+                            d = dotted_name(a_) if isinstance(a_, ast.Attribute) else None
+                            if d and d.startswith('model.') and d.count('.') == 1:
+                                roles.add(d.split('.')[1])
         if not roles:
             raise AnalysisError('Outputs._convert_units: list of converted model parts not found')
         _ROLES_CACHE[id(repo)] = roles
